@@ -30,7 +30,8 @@ RULE = ("hostile strings: token soups over the ACL vocabulary (keywords, operato
         "distinct non-trivial = (class, platform, generator kind, outcome, exception type)"
         " Round 4: every documented spelling of the platform argument; group-object cycles used by an ACE."
         " Round 5: range-only groups; one group name defined twice."
-        " Rounds 6-7: destination lists of 1500..2500 ports.")
+        " Rounds 6-7: destination lists of 1500..2500 ports."
+        " Round 8: tokens starting with a slash.")
 ASSUMPTIONS = ["documented errors are ValueError and TypeError with their subclasses (AddressValueError, NetmaskValueError, "
                "NetportsValueError)", "CPU budget 5 s per case for inputs <= 4 KB, 20 s hard limit by RLIMIT_CPU",
                "state after a raising call is not judged"]
